@@ -70,6 +70,10 @@ def load_api(only_auth=False):
             priv = C.PrivateKey.from_bytes(seed)
             M.gen_keys = lambda: (priv, priv.public_key())
             name = os.path.join(d, "k")
+            # the key files may already exist (longer, other content): writing must replace them
+            for ext in (".pri", ".pub"):
+                with open(name + ext, "wb") as f:
+                    f.write(b"previous content, longer than a raw key: " + seed.hex().encode() + b"\n")
             r1, r2 = M.gen_and_write_keys(name)
             raw = (open(name + ".pri", "rb").read(), open(name + ".pub", "rb").read())
             lp, lq = C.keyfiles_to_keys(name)
@@ -78,6 +82,50 @@ def load_api(only_auth=False):
             M.gen_keys = old
             shutil.rmtree(d, ignore_errors=True)
     api["keyfile_roundtrip"] = keyfile_roundtrip
+
+    def _rs():
+        import conda_content_trust.root_signing as RS
+        return RS
+
+    def gpg_sign_dict(signable, fpr):
+        RS = _rs()
+        rec = {}
+        oc, oe = RS.gpg_funcs.create_signature, RS.gpg_funcs.export_pubkey
+
+        def c2(data, keyid):
+            r = oc(data, keyid)
+            rec["created"] = copy.deepcopy(r)
+            return r
+
+        def e2(keyid):
+            r = oe(keyid)
+            rec["q"] = r["keyval"]["public"]["q"]
+            return r
+        RS.gpg_funcs.create_signature, RS.gpg_funcs.export_pubkey = c2, e2
+        try:
+            out = RS.sign_root_metadata_dict_via_gpg(signable, fpr)
+        finally:
+            RS.gpg_funcs.create_signature, RS.gpg_funcs.export_pubkey = oc, oe
+        return [out, rec.get("created"), rec.get("q")]
+    api["gpg_sign_dict"] = gpg_sign_dict
+
+    def gpg_sign_file(signable, fprs):
+        RS = _rs()
+        d = tempfile.mkdtemp(prefix="cctw")
+        try:
+            fn = os.path.join(d, "root.json")
+            C.write_metadata_to_file(signable, fn)
+            for f in fprs:
+                RS.sign_root_metadata_via_gpg(fn, f)
+            raw = open(fn, "rb").read()
+            val = json.loads(raw)
+            if C.canonserialize(val) != raw:
+                raise RuntimeError("NONCANONICAL-FILE")
+            return val
+        finally:
+            shutil.rmtree(d, ignore_errors=True)
+    api["gpg_sign_file"] = gpg_sign_file
+    api["gpg_sign_via"] = lambda data, fpr, inc: _rs().sign_via_gpg(data, fpr, inc)
 
     def sign_all_value(r, keyhex):
         d = tempfile.mkdtemp(prefix="cctw")
